@@ -2,48 +2,56 @@
 
 package groups
 
-import "sort"
+import (
+	"reflect"
+	"sort"
+	"unsafe"
+)
 
-// VerifFillSnapshot is a read-only view of a FillCache for oracles and state keys.
+// VerifFillSnapshot is a read-only view of a FillCache for oracles and state keys. The fields are found
+// by name through reflection, so that a tree in which FillCache is laid out differently still builds; OK
+// says whether the member lists could be read (oracles that need them are skipped when it is false).
 type VerifFillSnapshot struct {
+	OK       bool
 	Cache    map[string][]string
 	Inflight []string
 	Loops    []string
 }
 
-func (c *FillCache) VerifSnapshot() VerifFillSnapshot {
-	s := VerifFillSnapshot{Cache: map[string][]string{}}
-	for g, ms := range c.cache {
-		var l []string
-		for m := range ms {
-			l = append(l, m)
-		}
-		sort.Strings(l)
-		s.Cache[g] = l
+func verifField(v reflect.Value, name string) (reflect.Value, bool) {
+	f := v.FieldByName(name)
+	if !f.IsValid() {
+		return f, false
 	}
-	for g := range c.inflight {
-		s.Inflight = append(s.Inflight, g)
-	}
-	for g := range c.refreshLoopGroups {
-		s.Loops = append(s.Loops, g)
-	}
-	sort.Strings(s.Inflight)
-	sort.Strings(s.Loops)
-	return s
+	return reflect.NewAt(f.Type(), unsafe.Pointer(f.UnsafeAddr())).Elem(), true
 }
 
-// VerifKeys lists the keys currently in a LocalCache.
-func (lc *LocalCache) VerifKeys() []CacheKey {
-	var out []CacheKey
-	lc.localCacheData.Range(func(k, v interface{}) bool {
-		out = append(out, k.(CacheKey))
-		return true
-	})
-	sort.Slice(out, func(i, j int) bool {
-		if out[i].Email != out[j].Email {
-			return out[i].Email < out[j].Email
+func (c *FillCache) VerifSnapshot() VerifFillSnapshot {
+	s := VerifFillSnapshot{Cache: map[string][]string{}}
+	v := reflect.ValueOf(c).Elem()
+	if f, ok := verifField(v, "cache"); ok {
+		if m, ok := f.Interface().(map[string]MemberSet); ok {
+			s.OK = true
+			for g, ms := range m {
+				var l []string
+				for member := range ms {
+					l = append(l, member)
+				}
+				sort.Strings(l)
+				s.Cache[g] = l
+			}
 		}
-		return out[i].AllowedGroups < out[j].AllowedGroups
-	})
-	return out
+	}
+	keys := func(name string) []string {
+		var out []string
+		if f, ok := verifField(v, name); ok && f.Kind() == reflect.Map && f.Type().Key().Kind() == reflect.String {
+			for _, k := range f.MapKeys() {
+				out = append(out, k.String())
+			}
+		}
+		sort.Strings(out)
+		return out
+	}
+	s.Inflight, s.Loops = keys("inflight"), keys("refreshLoopGroups")
+	return s
 }
